@@ -63,7 +63,7 @@ PROPS = {
         'design_ref': 'DESIGN.md §5 U9, §6 C19',
     },
     'C07': {
-        'verus': ['program_state', 'interp_api', 'expressions'],
+        'verus': ['program_state', 'interp_api', 'expressions', 'statements'],
         'kani': [],
         'level': 'proof',
         'design_ref': 'DESIGN.md §6 C07',
